@@ -1,4 +1,5 @@
 import Photon.Lemmas.RangeSplit
+import Photon.Lemmas.RangeSplitGen
 /-!
 # C15 — Range split: the parts tile the requested range exactly, block by block
 
@@ -321,5 +322,101 @@ example : alignedParts (fixedDiv 4) (init (fixedDiv 4) 5 0) = [] := by decide
     so this is a domain note, not a finding. -/
 theorem C15_wrap_witness :
     allPartsCount (init (fixedDiv (2 ^ 63)) (2 ^ 63) 1) = 2 ^ 64 - 1 := by decide
+
+end Photon.RangeSplit
+
+namespace Photon.RangeSplit
+/-! ### the variable-interval splitter `range_split_vi` (used by the linear composer of `fs/xfile.cpp`) -/
+
+/-- `std::upper_bound`: everything before the returned index is `≤ x` -/
+theorem upperBound_le : ∀ (kp : List Nat) (x j : Nat), j < upperBound kp x → kp.getD j 0 ≤ x
+  | [], _, _, h => by simp [upperBound] at h
+  | p :: r, x, j, h => by
+    unfold upperBound at h
+    split at h
+    · cases j with
+      | zero => simpa
+      | succ j => simpa using upperBound_le r x j (by omega)
+    · omega
+
+/-- `std::upper_bound`: the element at the returned index (if any) is `> x` -/
+theorem upperBound_gt : ∀ (kp : List Nat) (x : Nat), upperBound kp x < kp.length →
+    x < kp.getD (upperBound kp x) 0
+  | [], _, h => by simp at h
+  | p :: r, x, h => by
+    unfold upperBound at h ⊢
+    split
+    · rename_i hp
+      simp only [hp, if_true, List.length_cons] at h
+      have := upperBound_gt r x (by omega)
+      rw [Nat.add_comm 1]; simpa using this
+    · simp; omega
+
+theorem upperBound_le_length : ∀ (kp : List Nat) (x : Nat), upperBound kp x ≤ kp.length
+  | [], _ => by simp [upperBound]
+  | p :: r, x => by
+    unfold upperBound; split
+    · have := upperBound_le_length r x; simp; omega
+    · omega
+
+/-- key points of a variable-interval split: start at 0, strictly ascending -/
+def KeyPointsOk (kp : List Nat) : Prop :=
+  kp.getD 0 0 = 0 ∧ 0 < kp.length ∧ kp.length < W ∧ kp.getD (kp.length - 1) 0 < W ∧
+  ∀ i, i + 1 < kp.length → kp.getD i 0 < kp.getD (i + 1) 0
+
+/-- the three hooks of `range_split_vi` meet the contract of `basic_range_split` -/
+theorem viDiv_ok (kp : List Nat) (h : KeyPointsOk kp) : DivOk (viDiv kp) (kp.length - 1) := by
+  obtain ⟨h0, hn, hW, hlast, hasc⟩ := h
+  refine ⟨by omega, hlast, ?_, ?_, ?_⟩
+  · intro i hi
+    have := hasc i (by omega)
+    simp only [viDiv]; omega
+  · intro i hi
+    have := hasc i (by omega)
+    simp only [viDiv]; omega
+  · intro x hx
+    simp only [viDiv] at hx ⊢
+    have hu1 : 1 ≤ upperBound kp x := by
+      cases kp with
+      | nil => simp at hn
+      | cons p r =>
+        have : p = 0 := by simpa using h0
+        subst this
+        unfold upperBound; simp
+    have hle := upperBound_le kp x (upperBound kp x - 1) (by omega)
+    have hlen := upperBound_le_length kp x
+    refine ⟨upperBound kp x - 1, x - kp.getD (upperBound kp x - 1) 0, ?_, by omega, by omega, ?_, ?_⟩
+    · have : upperBound kp x = upperBound kp x - 1 + 1 := by omega
+      simp only [gt_iff_lt]
+      congr 2
+      split <;> omega
+    · intro ha
+      have := upperBound_gt kp x (by omega)
+      have e : upperBound kp x - 1 + 1 = upperBound kp x := by omega
+      rw [e]; omega
+    · intro ha
+      have e : upperBound kp x - 1 = kp.length - 1 := ha
+      rw [e]; omega
+
+/-- **C15, tiling, variable intervals.** For every ascending key-point list starting at 0 (any
+    number of sub-ranges of any sizes), every offset and non-zero length with `offset+length` not
+    beyond the last key point, `all_parts()` of `range_split_vi` is a non-empty list of non-empty
+    parts, part `p` lying inside sub-range `p.i` (`[kp[i], kp[i+1])`), the first starting at
+    `offset`, each next starting where the previous ended, the last ending at `offset+length`. -/
+theorem C15_tiling_vi (kp : List Nat) (h : KeyPointsOk kp) (o l : Nat) (hl : 0 < l)
+    (hend : o + l ≤ kp.getD (kp.length - 1) 0) :
+    let ps := allParts (viDiv kp) (init (viDiv kp) o l)
+    ps ≠ [] ∧ TilesV (fun i => kp.getD i 0) (fun i => kp.getD (i + 1) 0 - kp.getD i 0) o ps (o + l) :=
+  tilesV_generic (viDiv kp) (kp.length - 1) (viDiv_ok kp h) o l hl hend
+
+/-- non-vacuity: a key-point list meets the hypothesis, and the split evaluates as expected
+    (sub-ranges of sizes 10, 5, 25; the range [7, 33) touches all three) -/
+example : KeyPointsOk [0, 10, 15, 40] := by
+  refine ⟨rfl, by decide, by unfold W; decide, by unfold W; decide, ?_⟩
+  intro i hi
+  have : i = 0 ∨ i = 1 ∨ i = 2 := by simp at hi; omega
+  rcases this with h | h | h <;> subst h <;> decide
+example : allParts (viDiv [0, 10, 15, 40]) (init (viDiv [0, 10, 15, 40]) 7 26) =
+    [⟨0, 7, 3⟩, ⟨1, 0, 5⟩, ⟨2, 0, 18⟩] := by decide
 
 end Photon.RangeSplit
